@@ -308,7 +308,7 @@ def mid_walk(tid, rng, n0, rounds):
     ok = True
     for rnd in range(rounds):
         n = tab.n_qubits
-        if n < 3 or not ok:
+        if n < 4 or not ok:
             break
         acts = []
         for q in rng.sample(range(1, n + 1), max(2, n // 2)):
@@ -318,7 +318,7 @@ def mid_walk(tid, rng, n0, rounds):
             acts.append({"ev": "g2", "g": rng.choice(G2), "a": c, "b": t})
             if rng.random() < 0.4:
                 acts.append({"ev": "g1", "g": rng.choice(G1), "a": rng.randint(1, n)})
-        drop = {n} | set(rng.sample(range(1, n), rng.randint(1, 2)))
+        drop = {n} | set(rng.sample(range(1, n), rng.randint(1, min(2, n - 2))))     # at least one position is kept
         keep = [k for k in range(1, n + 1) if k not in drop]
         rng.shuffle(keep)
         acts.append({"ev": "ptrace", "keep": keep, "d": rng.choice([2, 2, 0, 1])})
